@@ -215,16 +215,39 @@ def check(run):
         mprog = [("defi", "m", ["q"], prog[:-1])] + [("macro", "m", [("num", 1)])]
         src = G.prog_src(mprog)
         cases.append(dict(req="asm " + src.encode().hex(), coq=f"run_asm {G.prog_coq(mprog)}", cat=cat + "-in-macro", prog=mprog, order=None, src=src))
+    # a call-site label passed to a macro that defines a local label of the same name: the argument keeps the offset
+    # of the call-site label (the expected bytes are those of the hand-expanded program, assembled the same way)
+    J, PC = ("op", "jumpdest", None), ("op", "pc", None)
+    for pad in (1, 300):
+        for mk in (lambda e: ("push", e), lambda e: ("op", "push2", e)):
+            clash = [
+                ([("defi", "retry", ["t"], [("label", "again"), J, mk(("var", "t")), ("op", "jump", None)]), ("label", "again"), J] + [PC] * pad + [("macro", "retry", [("lbl", "again")])],
+                 [("label", "again"), J] + [PC] * pad + [("label", "again_l"), J, mk(("lbl", "again")), ("op", "jump", None)]),
+                ([("defi", "leave", ["t"], [mk(("var", "t")), ("op", "jump", None), ("label", "done"), J]), ("macro", "leave", [("lbl", "done")])] + [PC] * pad + [("label", "done"), J],
+                 [mk(("lbl", "done")), ("op", "jump", None), ("label", "done_l"), J] + [PC] * pad + [("label", "done"), J]),
+                ([("defi", "both", ["t"], [("label", "x"), J, mk(G.climb([("var", "t"), "+", ("lbl", "x")]))]), PC, ("label", "x"), J] + [PC] * pad + [("macro", "both", [("lbl", "x")])],
+                 [PC, ("label", "x"), J] + [PC] * pad + [("label", "x_l"), J, mk(G.climb([("lbl", "x"), "+", ("lbl", "x_l")]))]),
+            ]
+            for mprog, flat in clash:
+                src = G.prog_src(mprog)
+                cases.append(dict(req="asm " + src.encode().hex(), coq=f"run_asm {G.prog_coq(mprog)}", cat="macro-argument-label-clash", prog=mprog, order=None, src=src,
+                                  flat_req="asm " + G.prog_src(flat).encode().hex()))
     dis = common.correspond(run, cases, IMPORTS, tag="c01", timeout=900)
+    flat_cases = [c for c in cases if c.get("flat_req")]
+    flat_ans, _, _ = common.run_harness([c["flat_req"] for c in flat_cases])
+    for c, a in zip(flat_cases, flat_ans):
+        c["flat_impl"] = a
     run.corr["rule"] = ("layout programs: 1-3 labels, in two thirds of the programs each followed by a jumpdest sentinel, in one third directly in front of whatever comes next (often an auto-sized push that grows; oracle: label = offset of the next instruction), 2-6 fixed/auto-sized pushes of label expressions "
                         "(l, l+c, c-l, l-m+c), filler tuned so label values straddle 255/256 (and 65535/65536), probes push4 l at the end; "
                         "macro variant with local labels; cascades: one auto-sized push that grows twice (L + 256^k - (k+1)) and searched 2-4 push programs "
-                        "that need more widening rounds than they have pushes, plain and inside a macro; distinct = distinct sources")
+                        "that need more widening rounds than they have pushes, plain and inside a macro; call-site labels passed to macros that define a local label of the same name; distinct = distinct sources")
     found = 0
     for c in cases:
         problems = oracle(c["prog"], c["order"], c["impl"] or "")
         if (c["impl"] or "").startswith("panic"):
             problems.append("assembler panicked: " + c["impl"])
+        if c.get("flat_req") and c.get("flat_impl") and (c["impl"] or "").startswith(("ok:", "err:")) and c["impl"] != c["flat_impl"]:
+            problems.append(f"the macro program gives {c['impl'][:80]} but its hand-expanded form (local label renamed, argument label untouched) gives {c['flat_impl'][:80]}")
         if problems:
             found += 1
             if found <= 3:
